@@ -26,6 +26,9 @@ pub struct Cfg {
     pub inband_cenc: bool,
     /// Content-MD5 announced and checked
     pub md5: bool,
+    /// object bytes that do not compress (the transfer length then follows the object length)
+    #[serde(default)]
+    pub incompressible: bool,
 }
 
 impl Cfg {
@@ -34,7 +37,7 @@ impl Cfg {
         o.oti = Some(OtiSpec::new(self.scheme, self.e, self.b, self.parity, self.inband_fti));
         o.count = self.count;
         o.cenc = self.cenc;
-        o.text = self.cenc != 0;
+        o.text = self.cenc != 0 && !self.incompressible;
         o.inband_cenc = self.inband_cenc;
         o.md5 = self.md5;
         if self.carousel {
@@ -227,7 +230,7 @@ fn run_corrupt_expect(p: &Prepared, seq: &[usize], c: &Corrupt, g: &mut G) -> Op
 }
 
 fn configs(thorough: bool) -> Vec<Cfg> {
-    let c = |scheme, e, b, parity, len, cenc, inband_fti, count, carousel, interleave| Cfg { scheme, e, b, parity, len, cenc, inband_fti, count, carousel, interleave, inband_cenc: inband_fti, md5: true };
+    let c = |scheme, e, b, parity, len, cenc, inband_fti, count, carousel, interleave| Cfg { scheme, e, b, parity, len, cenc, inband_fti, count, carousel, interleave, inband_cenc: inband_fti, md5: true, incompressible: false };
     let mut v = vec![
         c(Scheme::NoCode, 4, 2, 0, 11, 0, true, 1, false, 1),
         c(Scheme::NoCode, 4, 2, 0, 11, 0, false, 1, false, 1),
@@ -261,6 +264,21 @@ fn configs(thorough: bool) -> Vec<Cfg> {
                     let mut x = c(scheme, e, b, parity, len, cenc, inband_fti, 1, false, 1);
                     x.inband_cenc = inband_cenc;
                     x.md5 = md5;
+                    v.push(x);
+                }
+            }
+        }
+    }
+    // larger content-encoded objects (many blocks of unequal size stream through the inflater's ring
+    // buffer), with and without MD5: delivered in a family of whole-session orders (kind 4)
+    for (scheme, e, b, parity) in [(Scheme::NoCode, 4u16, 5u16, 0u16), (Scheme::NoCode, 8, 3, 0), (Scheme::Rs28, 4, 3, 1)] {
+        for cenc in [1u8, 2, 3] {
+            for md5 in [false, true] {
+                let lens: Vec<usize> = if thorough { (80..160).collect() } else { (96..136).step_by(3).collect() };
+                for len in lens {
+                    let mut x = c(scheme, e, b, parity, len, cenc, true, 1, false, 1);
+                    x.md5 = md5;
+                    x.incompressible = true;
                     v.push(x);
                 }
             }
@@ -304,10 +322,10 @@ pub fn run(thorough: bool) -> i32 {
     let cfgs = configs(thorough);
     let perm_nmax = if thorough { 9 } else { 7 };
     let seq_len = if thorough { 7 } else { 5 };
-    // work items: (config, kind) kind 0 perms, 1 sequences with repetition, 2 subsets x {fwd,rev}, 3 corruption
+    // work items: (config, kind) kind 0 perms, 1 sequences with repetition, 2 subsets x {fwd,rev}, 3 corruption, 4 whole-session orders
     let mut items = Vec::new();
     for ci in 0..cfgs.len() {
-        for kind in 0..4u8 {
+        for kind in 0..5u8 {
             items.push((ci, kind));
         }
     }
@@ -338,6 +356,7 @@ pub fn run(thorough: bool) -> i32 {
                         });
                     }
                 }
+                1 if n > 10 => {}
                 1 => {
                     // all sequences of length 1..=seq_len over the n distinct packets, with repetition
                     let nn = n.min(8);
@@ -359,6 +378,7 @@ pub fn run(thorough: bool) -> i32 {
                         }
                     }
                 }
+                2 if n > 14 => {}
                 2 => {
                     let nn = n.min(14);
                     for mask in 0u32..(1 << nn) {
@@ -371,7 +391,34 @@ pub fn run(thorough: bool) -> i32 {
                         }
                     }
                 }
+                4 => {
+                    // whole-session orders for sessions too large for the factorial sweeps
+                    if n > perm_nmax {
+                        let all: Vec<usize> = (0..n).collect();
+                        let mut orders: Vec<Vec<usize>> = vec![all.clone(), all.iter().rev().cloned().collect()];
+                        for k in 1..n {
+                            let mut o = all[k..].to_vec();
+                            o.extend_from_slice(&all[..k]);
+                            orders.push(o);
+                        }
+                        let ev: Vec<usize> = all.iter().cloned().filter(|i| i % 2 == 0).collect();
+                        let od: Vec<usize> = all.iter().cloned().filter(|i| i % 2 == 1).collect();
+                        orders.push(ev.iter().chain(od.iter()).cloned().collect());
+                        orders.push(od.iter().chain(ev.iter()).cloned().collect());
+                        for d in 0..n {
+                            let mut o = all.clone();
+                            o.insert(d, all[d]);
+                            orders.push(o);
+                        }
+                        for o in &orders {
+                            if let Some((k, w)) = run_seq(&p, o, None, &mut g) {
+                                push(k, w, o, None, "order");
+                            }
+                        }
+                    }
+                }
                 _ if !cfg.md5 => {}
+                _ if n > 12 => {}
                 _ => {
                     // corruption: every object packet x every payload byte x masks, and truncations
                     let all: Vec<usize> = (0..n).collect();
